@@ -10,6 +10,10 @@ GENS = [
     (4, dict(bad_rate=0.4, inplace_rate=0.6, fail_rate=0.3)),
     (2, dict(bad_rate=0.4, inplace_rate=0.0, fail_rate=0.3)),
     (1, dict(bad_rate=0.4, inplace_rate=0.5, fail_rate=0.3, flavour="frozen")),
+    # nested spec values reached through update_/transform_<attr> and the element helpers with
+    # several nested keywords, the failing one after correct ones
+    (3, dict(bad_rate=0.5, inplace_rate=0.7, fail_rate=0.3, prefer_nested=True,
+             weights={"construct": 1, "scalar": 6, "item": 5, "top": 1})),
 ]
 
 
@@ -102,7 +106,13 @@ def keyed_attributes(chk, cases, bad, extra):
                                  "rule": "implementation only: KeyedList/KeyedSet attributes of keyed spec items, element helpers with duplicate keys, ill-typed items, missing targets, raising transforms; oracle: list view and key index unchanged after an exception"}
 
 
+def _post(chk, cases, bad, extra):
+    import keyed_explore
+    keyed_attributes(chk, cases, bad, extra)
+    keyed_explore.explore(chk, extra, "C04")
+
+
 def main(tier, replay=None):  # noqa: F811
     if replay:
         return inst_check.replay("C04", replay, 16)
-    return inst_check.run("C04", tier, 16, GENS, 450, 7000, ASSUMPTIONS, post=keyed_attributes)
+    return inst_check.run("C04", tier, 16, GENS, 450, 7000, ASSUMPTIONS, post=_post)
